@@ -212,8 +212,14 @@ func (o *Operator) HandleDeploy(ctx context.Context, req *workerpb.DeployOperato
 	o.status.LoadingStarted()
 	dkvOpenStart := time.Now()
 
-	// Initialize the DKV filesystem using the ID for a prefix
-	fs, err := storage.NewFileSystemFromLocation(storage.Join(req.StorageLocation, o.id))
+	// Initialize the DKV filesystem using the ID and the key group range for a
+	// prefix. An operator that survives a reassembly may be given another range
+	// (its position among the sorted operator IDs shifts when an earlier operator
+	// is replaced). It then restores another operator's files and numbers its new
+	// files from those, while the files it wrote for its previous range are
+	// being restored by that range's new owner: they must not share a directory.
+	rangeDir := fmt.Sprintf("%d-%d", o.keyGroupRange.Start, o.keyGroupRange.End)
+	fs, err := storage.NewFileSystemFromLocation(storage.Join(req.StorageLocation, o.id, rangeDir))
 	if err != nil {
 		return fmt.Errorf("creating filesystem: %w", err)
 	}
